@@ -221,8 +221,7 @@ pub fn prefix_case(ric: u8, db: u8, len: usize) {
     if len < 2 {
         expect(&s, len, limit, None);
     } else if ric == 0 {
-        let a = expect(&s, len, limit, Some((&f, len - 2)));
-        kani::cover!(a, "zero_required_insert_count_accepted");
+        expect(&s, len, limit, Some((&f, len - 2)));
     } else {
         expect(&s, len, limit, None);
     }
